@@ -13,6 +13,9 @@ from .. import common, env, refcodec as rc, scenario, simkernel as sk
 from ..common import Report, Violation
 
 FAULTS = ("eof", "rst", "rderr", "wrerr")
+# scenarios whose faults are also enumerated at line granularity in the quick tier (all of them in the thorough tier)
+FINE_SCENARIOS = ("inbound-handshake", "outbound-handshake", "request-answer-basic", "held-answers", "two-connections", "disconnect-peer", "watchdog",
+                  "threading-limit1-answer", "threading-limit1-none", "threading-limit2-raise", "threading-limit1-slow")
 OUTCOMES = ("answer", "none", "raise", "slow")
 LONG_LIVED = ("_handle_connections", "_collect_stats", "_wait_for_recv_msg", "_wait_for_resp_msg")
 
@@ -21,6 +24,8 @@ def cfg_for(kind, limit=0, outcome="answer"):
     app = {"id": env.APP_ACCT, "acct": True, "peers": [0, 1]}
     if kind == "threading":
         app.update({"kind": "threading", "max_threads": limit})
+    elif kind == "hold":
+        pass                # answers are submitted by ("ans", j) events of the script; probe requests are answered at once (see run_scenario)
     else:
         app.update({"behaviour": "answer"})
     return {"node": {"ips": ["10.0.0.1"], "tcp_port": 3868, "cer_timeout": 3, "cea_timeout": 3, "idle_timeout": 4, "dwa_timeout": 3, "wakeup": 1},
@@ -43,6 +48,12 @@ def scenarios(tier):
                                                                          ("tick", 3), ("m", 0, "ans")]))
     out.append(("watchdog", "basic", 0, "answer", ["refused"], [("accept",), ("m", 0, "cer_p0"), ("m", 0, "dwr"), ("tick", 5), ("m", 0, "dwa"), ("tick", 5)]))
     out.append(("disconnect-peer", "basic", 0, "answer", ["refused"], [("accept",), ("m", 0, "cer_p0"), ("m", 0, "req"), ("m", 0, "dpr"), ("tick", 1)]))
+    # the basic application holds its answers: submitted later (("ans", j)), also after the connection has gone, also twice
+    out.append(("held-answers", "hold", 0, "answer", ["refused"], [("accept",), ("m", 0, "cer_p0"), ("m", 0, "req"), ("m", 0, "req"), ("ans", 1), ("m", 0, "dwr"),
+                                                                    ("ans", 0), ("ans2", 0), ("m", 0, "req"), ("tick", 1), ("ans", 2)]))
+    # two connections: one is busy with a request / watchdog while the other one is being established, used and lost
+    out.append(("two-connections", "hold", 0, "answer", ["refused"], [("accept",), ("m", 0, "cer_p0"), ("m", 0, "req"), ("accept",), ("m", 1, "cer_p1"), ("m", 1, "req"),
+                                                                       ("ans", 0), ("m", 1, "dpr"), ("ans", 1), ("m", 0, "dwr"), ("eof", 1), ("m", 0, "req"), ("ans", 2)]))
     limits = (0, 1, 2, 3)
     for limit in limits:
         for outcome in OUTCOMES:
@@ -95,12 +106,40 @@ def inject(sc, kind):
     return True
 
 
-def run_scenario(spec, fault=None, cut=None):
+FINE_POINTS = (("node", "Node", ("_receive_message", "receive_cer", "receive_cea", "receive_dwr", "receive_dwa", "receive_dpr", "receive_dpa", "_receive_app_request",
+                                  "_receive_app_answer", "route_answer", "send_message", "_record_answer", "_generate_answer")),
+               ("peer", "PeerConnection", ("work_read_queue", "work_write_queue", "add_out_msg")),
+               ("application", "Application", ("send_answer", "receive_request")),
+               ("application", "ThreadingApplication", ("_wait_for_recv_msg", "_wait_for_resp_msg", "_handle_request_thread", "receive_request")))
+
+
+def _fine_points():
+    import importlib
+    pts = {}
+    for modname, clsname, names in FINE_POINTS:
+        cls = getattr(importlib.import_module(f"diameter.node.{modname}"), clsname)
+        for n in names:
+            if n in vars(cls):
+                pts[sk.code_of(cls, n)] = None
+    return pts
+
+
+def run_scenario(spec, fault=None, cut=None, fine=False):
     """fault = (step number, kind) | None; cut = (script index, prefix class, kind) | None.
+    fine: every source line of the message handlers, the connection workers and the application's answer path is a kernel step (so a
+    fault can land in the middle of a handler), and the node's I/O thread reacts to the fault at once (mc/handover.py).
     Returns (steps at the end of the script, violations)."""
     name, kind, limit, outcome, start_plan, script = spec
     cfg = cfg_for(kind, limit, outcome)
-    sc = scenario.Scenario(cfg, max_socks=6, start_plan=list(start_plan), app_timeout=2)
+    ch = None
+    sk.install()
+    if fine:
+        from .. import handover
+        ch = handover.HandOverChooser("_handle_connections")
+        sk.set_line_points(_fine_points())
+    else:
+        sk.set_line_points({})
+    sc = scenario.Scenario(cfg, chooser=ch, max_socks=6, start_plan=list(start_plan), app_timeout=2)
     vs = []
     try:
         nw = sc.start()
@@ -108,7 +147,11 @@ def run_scenario(spec, fault=None, cut=None):
             nw.apps[0].behaviour = make_behaviour(outcome)
         base = nw.world.steps
         if fault is not None:
-            nw.world.step_hooks[base + fault[0]] = lambda: inject(sc, fault[1])
+            def hook():
+                if inject(sc, fault[1]) and ch is not None:
+                    ch.active = True
+            nw.world.step_hooks[base + fault[0]] = hook
+        nw.world.points_on = fine
         for i, ev in enumerate(script):
             if cut is not None and cut[0] == i and ev[0] == "m":
                 s = sc.sock(ev[1])
@@ -124,6 +167,11 @@ def run_scenario(spec, fault=None, cut=None):
             sc.apply(ev)
         steps = nw.world.steps - base
         nw.world.step_hooks.clear()
+        nw.world.points_on = False
+        if ch is not None:
+            ch.active = False
+        if kind == "hold":
+            nw.apps[0].behaviour = "answer"     # from now on (the probe) requests are answered at once
         # let every timeout pass
         for _ in range(9):
             sc.apply(("tick", 1))
@@ -133,6 +181,8 @@ def run_scenario(spec, fault=None, cut=None):
         return 0, [("livelock:node-threads-never-reach-quiescence", f"{e}")]
     finally:
         sc.close()
+        if fine:
+            sk.set_line_points({})
 
 
 def service_probe(sc, limit, ctx):
@@ -236,6 +286,20 @@ def work(args):
             _, vs = run_scenario(spec, fault=(step, fk))
             for k, d in vs:
                 out.setdefault(k, (f"[{name}] fault {fk} before kernel step {step} of {steps}: {d}", {"scenario": name, "fault": [step, fk]}))
+    # the same faults in the middle of the handlers: every source line of the handlers / workers is a step, the I/O thread reacts at once
+    if name in FINE_SCENARIOS or tier == "thorough":
+        fsteps, vsf = run_scenario(spec, fine=True)
+        n += 1
+        for k, d in vsf:
+            out.setdefault(k + ":fault-free", (d, {"scenario": name, "fault": None, "fine": True}))
+        for step in range(0, fsteps + 1):
+            for fk in ("eof", "rst") if tier != "thorough" else faults:
+                n += 1
+                _, vs = run_scenario(spec, fault=(step, fk), fine=True)
+                for k, d in vs:
+                    out.setdefault(k, (f"[{name}] fault {fk} before line-granular step {step} of {fsteps}, I/O thread reacting at once: {d}",
+                                       {"scenario": name, "fault": [step, fk], "fine": True}))
+        steps = (steps, fsteps)
     script = spec[5]
     for i, ev in enumerate(script):
         if ev[0] != "m":
@@ -327,7 +391,7 @@ def replay(case):
     for spec in scenarios("thorough"):
         if spec[0] == case.get("scenario"):
             if case.get("fault"):
-                _, vs = run_scenario(spec, fault=tuple(case["fault"]))
+                _, vs = run_scenario(spec, fault=tuple(case["fault"]), fine=bool(case.get("fine")))
             elif case.get("cut"):
                 _, vs = run_scenario(spec, cut=tuple(case["cut"]))
             elif case.get("faults"):
